@@ -233,7 +233,7 @@ class Chipset(object):
             self.log.error("frame without frame identifier")
             raise IOError(errno.EIO, os.strerror(errno.EIO))
 
-        if not sum(frame) & 0xFF == 0:
+        if not sum(frame[:-1]) & 0xFF == 0:
             self.log.error("frame data checksum error")
             raise IOError(errno.EIO, os.strerror(errno.EIO))
 
